@@ -79,6 +79,11 @@ struct St {
     clock_reads: u64,
     debug: bool,
     debug2: bool,
+    /// max bytes requested during one DDS-task poll since the last `take_alloc_window`
+    win_poll_alloc: u64,
+    /// largest single request seen during DDS-task polls since the last `take_alloc_window`
+    win_single_alloc: u64,
+    max_poll_alloc: u64,
 }
 
 pub struct Shared {
@@ -309,47 +314,64 @@ pub fn install_panic_hook() {
                 .map(|l| format!("{}:{}", l.file(), l.line()))
                 .unwrap_or_default();
             let bt = std::backtrace::Backtrace::force_capture().to_string();
+            if std::env::var("SIM_BT").is_ok() {
+                eprintln!("{bt}");
+            }
             let sym = first_dust_frame(&bt);
             LAST_PANIC.with(|p| *p.borrow_mut() = Some((msg, loc, sym)));
         }));
     });
 }
 
-/// First backtrace symbol inside dust_dds (not the panic machinery), generics stripped.
+/// First backtrace frame whose source location lies in the repository under test, rendered as
+/// `<path below /repo/>::<function>` (no line number, generics stripped) so that it is stable
+/// against unrelated edits. Falls back to the first symbol mentioning `dust_dds::`.
 pub fn first_dust_frame(bt: &str) -> String {
-    for line in bt.lines() {
-        let l = line.trim();
-        // frame lines look like "12: dust_dds::rtps::message_receiver::...".
-        let Some((_, sym)) = l.split_once(": ") else {
-            continue;
-        };
-        if sym.contains("dust_dds::") && !sym.starts_with("at ") {
-            // take from the first occurrence of dust_dds::
-            let start = sym.find("dust_dds::").unwrap();
-            let mut s = sym[start..].to_string();
-            // strip hash suffix ::h0123...
-            if let Some(p) = s.rfind("::h") {
-                if s[p + 3..].chars().all(|c| c.is_ascii_hexdigit()) {
-                    s.truncate(p);
-                }
-            }
-            // strip generics
-            let mut out = String::new();
-            let mut depth = 0;
-            for c in s.chars() {
-                match c {
-                    '<' => depth += 1,
-                    '>' => {
-                        if depth > 0 {
-                            depth -= 1
-                        }
+    fn strip_generics(s: &str) -> String {
+        let mut out = String::new();
+        let mut depth = 0;
+        for c in s.chars() {
+            match c {
+                '<' => depth += 1,
+                '>' => {
+                    if depth > 0 {
+                        depth -= 1
                     }
-                    c if depth == 0 => out.push(c),
-                    _ => {}
                 }
+                c if depth == 0 => out.push(c),
+                _ => {}
             }
-            let out = out.replace("::{{closure}}", "").replace("::{closure#0}", "");
-            return out;
+        }
+        out.replace("::{{closure}}", "").replace("{closure#0}", "closure")
+    }
+    let lines: Vec<&str> = bt.lines().collect();
+    let mut last_name: Option<&str> = None;
+    for l in &lines {
+        let t = l.trim();
+        if let Some(loc) = t.strip_prefix("at ") {
+            if let Some(p) = loc.find("/repo/") {
+                let path = &loc[p + 6..];
+                let file = path.split(':').next().unwrap_or(path);
+                let name = last_name.unwrap_or("?");
+                let mut name = strip_generics(name);
+                if let Some(h) = name.rfind("::h") {
+                    if name[h + 3..].chars().all(|c| c.is_ascii_hexdigit()) {
+                        name.truncate(h);
+                    }
+                }
+                return format!("{file}::{name}");
+            }
+        } else if let Some((idx, sym)) = t.split_once(": ") {
+            if idx.chars().all(|c| c.is_ascii_digit()) {
+                last_name = Some(sym);
+            }
+        }
+    }
+    for l in &lines {
+        if let Some((_, sym)) = l.trim().split_once(": ") {
+            if let Some(p) = sym.find("dust_dds::") {
+                return strip_generics(&sym[p..]);
+            }
         }
     }
     String::new()
@@ -357,6 +379,20 @@ pub fn first_dust_frame(bt: &str) -> String {
 
 pub fn take_last_panic() -> Option<(String, String, String)> {
     LAST_PANIC.with(|p| p.borrow_mut().take())
+}
+
+// ---------------------------------------------------------------------------------------------
+// Allocation probe: a binary with a counting global allocator registers a function returning
+// (total bytes requested so far, largest single request so far); the executor samples it around
+// every poll of a DDS task.
+
+static ALLOC_PROBE: Mutex<Option<fn() -> (u64, u64)>> = Mutex::new(None);
+
+pub fn set_alloc_probe(f: fn() -> (u64, u64)) {
+    *ALLOC_PROBE.lock().unwrap() = Some(f);
+}
+fn alloc_probe() -> Option<(u64, u64)> {
+    ALLOC_PROBE.lock().unwrap().map(|f| f())
 }
 
 // ---------------------------------------------------------------------------------------------
@@ -454,6 +490,9 @@ impl Sim {
             clock_reads: 0,
             debug: std::env::var("SIM_DEBUG").is_ok(),
             debug2: std::env::var("SIM_DEBUG").map(|v| v == "2").unwrap_or(false),
+            win_poll_alloc: 0,
+            win_single_alloc: 0,
+            max_poll_alloc: 0,
         };
         Sim {
             sh: Arc::new(Shared { st: Mutex::new(st) }),
@@ -503,6 +542,17 @@ impl Sim {
     }
     pub fn worker_polls(&self) -> u64 {
         self.sh.st.lock().unwrap().worker_polls
+    }
+    /// (max bytes requested by one DDS-task poll since the last call) and reset
+    pub fn take_alloc_window(&self) -> u64 {
+        let mut st = self.sh.st.lock().unwrap();
+        let r = st.win_poll_alloc;
+        st.win_poll_alloc = 0;
+        st.win_single_alloc = 0;
+        r
+    }
+    pub fn max_poll_alloc(&self) -> u64 {
+        self.sh.st.lock().unwrap().max_poll_alloc
     }
 
     /// Spawn a non-Send application task; returns a join handle resolving to its output.
@@ -647,7 +697,18 @@ impl Sim {
                             }
                         }
                     } else if let Some(mut fut) = send_fut {
+                        let probe0 = alloc_probe();
                         let r = catch_unwind(AssertUnwindSafe(|| fut.as_mut().poll(&mut cx)));
+                        if let (Some((t0, _)), Some((t1, _))) = (probe0, alloc_probe()) {
+                            let d = t1.saturating_sub(t0);
+                            let mut st = self.sh.st.lock().unwrap();
+                            if d > st.win_poll_alloc {
+                                st.win_poll_alloc = d;
+                            }
+                            if d > st.max_poll_alloc {
+                                st.max_poll_alloc = d;
+                            }
+                        }
                         match r {
                             Ok(Poll::Pending) => {
                                 self.sh.st.lock().unwrap().send_tasks.insert(id, fut);
